@@ -1,2 +1,171 @@
-/-! placeholder driver (property C09 not built yet) -/
-def main : IO Unit := IO.println "bad-op"
+import LlgoVerif.Util
+import LlgoVerif.Model.CAbi
+import LlgoVerif.Spec.SysV
+/-! Line-protocol driver for C09. One request per line, one answer per line.
+
+    Types: `b h w q p f d` = i8 i16 i32 i64 ptr float double; `{..}` struct; `[N T]` array; `v` = no result.
+
+    cls T | clsret T      model of GetTypeInfo: `<kind> size=S align=A n=N off2=O`   (same format as harness/c09)
+    judge T <kind>        is the given pass kind sound against the psABI specification?  `sound` | `unsound`
+    spec T                psABI class: `none` | `memory` | `regs INTEGER SSE ..`  + ` natural=0|1`
+    sig R P..             model of transformFuncType: `ret=.. params=..`              (same format as harness/c09)
+    place R P..           `impl=<placement> spec=<placement> eq=0|1 fits=0|1 nosplit=0|1 natural=0|1`
+    cstr DEST LEN HEX     CStrCopy into a dirty memory of LEN bytes at DEST, then StringFromCStr: `ok HEX` | `oob`
+-/
+open LlgoVerif LlgoVerif.Util LlgoVerif.CAbi LlgoVerif.SysV
+
+/-- parse one type; returns the type and the rest -/
+def parseTy : Nat → List Char → Option (CType × List Char)
+  | 0, _ => none
+  | fuel + 1, cs =>
+    match cs with
+    | 'b' :: r => some (.sc .i8, r)
+    | 'h' :: r => some (.sc .i16, r)
+    | 'w' :: r => some (.sc .i32, r)
+    | 'q' :: r => some (.sc .i64, r)
+    | 'p' :: r => some (.sc .ptr, r)
+    | 'f' :: r => some (.sc .f32, r)
+    | 'd' :: r => some (.sc .f64, r)
+    | '{' :: r =>
+      let rec fields (n : Nat) (cs : List Char) (acc : List CType) : Option (List CType × List Char) :=
+        match n with
+        | 0 => none
+        | n + 1 =>
+          match cs with
+          | '}' :: r => some (acc.reverse, r)
+          | [] => none
+          | _ =>
+            match parseTy fuel cs with
+            | some (t, r) => fields n r (t :: acc)
+            | none => none
+      match fields (fuel + 1) r [] with
+      | some (fs, r) => some (.struct fs, r)
+      | none => none
+    | '[' :: r =>
+      let ds := r.takeWhile Char.isDigit
+      let r := r.dropWhile Char.isDigit
+      if ds.isEmpty then none else
+      match parseTy fuel r with
+      | some (t, ']' :: r) => some (.array (String.ofList ds).toNat! t, r)
+      | _ => none
+    | _ => none
+
+def parseType (s : String) : Option CType :=
+  match parseTy (s.length + 1) s.toList with
+  | some (t, []) => some t
+  | _ => none
+
+def regTyName : RegTy → String
+  | .int n => "i" ++ toString (n * 8)
+  | .ptr => "ptr" | .f32 => "float" | .f64 => "double" | .v2f32 => "v2f32"
+
+def parseRegTy (s : String) : Option RegTy :=
+  if s = "ptr" then some .ptr else if s = "float" then some .f32 else if s = "double" then some .f64
+  else if s = "v2f32" then some .v2f32
+  else match s.toList with
+    | 'i' :: ds => if !ds.isEmpty && ds.all Char.isDigit then
+        let n := (String.ofList ds).toNat!
+        if n % 8 = 0 then some (.int (n / 8)) else none
+      else none
+    | _ => none
+
+def kindName : PassKind → String
+  | .void => "void" | .direct => "direct" | .memory => "memory"
+  | .coerce r => "coerce " ++ regTyName r
+  | .coerce2 a b => "coerce2 " ++ regTyName a ++ " " ++ regTyName b
+
+def parseKind : List String → Option PassKind
+  | ["void"] => some .void
+  | ["direct"] => some .direct
+  | ["memory"] => some .memory
+  | ["coerce", a] => (parseRegTy a).map .coerce
+  | ["coerce2", a, b] => do pure (.coerce2 (← parseRegTy a) (← parseRegTy b))
+  | _ => none
+
+def clsLine (t : CType) (isRet : Bool) : String :=
+  let k := classify t isRet
+  let o := match k with
+    | .coerce2 a b => if k.wellFormed then toString (off2 a b) else "-"
+    | _ => "-"
+  s!"{kindName k} size={t.size} align={t.align} n={t.flatten.length} off2={o}"
+
+def className : Class → String
+  | .integer => "INTEGER" | .sse => "SSE" | .noClass => "NO_CLASS"
+
+def specLine (t : CType) : String :=
+  let c := match classifyAgg t.size t.elems with
+    | .none => "none"
+    | .memory => "memory"
+    | .regs cs => "regs " ++ " ".intercalate (cs.map className)
+  c ++ " natural=" ++ (if decide t.view.natural then "1" else "0")
+
+def largName : LArg → String
+  | .scalar r => regTyName r
+  | .byval s a => s!"byval:{s}:{a}"
+
+def sigLine (ret : Option CType) (ps : List CType) : String :=
+  let r := match ret with
+    | none => "void"
+    | some t =>
+      match lowerRetV t.view with
+      | .void => "void"
+      | .sret => "sret"
+      | .regs [] => "void"
+      | .regs rs => "regs:" ++ ",".intercalate (rs.map regTyName)
+  let l := (ps.map fun t => lowerParamV t.view).flatten
+  s!"ret={r} params=" ++ (if l.isEmpty then "-" else ",".intercalate (l.map largName))
+
+def locName : Loc → String
+  | .gpr i => s!"g{i}" | .xmm i => s!"x{i}" | .stack o => s!"s{o}"
+
+def placementName (p : Placement) : String :=
+  let r := match p.ret with
+    | .void => "void" | .sret => "sret"
+    | .regs l => "regs:" ++ ",".intercalate (l.map locName)
+  r ++ "|" ++ ";".intercalate (p.args.map fun l => if l.isEmpty then "-" else ",".intercalate (l.map locName))
+
+def b01 (b : Bool) : String := if b then "1" else "0"
+
+def parseSig (ws : List String) : Option Sig :=
+  match ws with
+  | [] => none
+  | r :: ps =>
+    match ps.mapM parseType with
+    | none => none
+    | some pts =>
+      if r = "v" then some ⟨none, pts⟩
+      else (parseType r).map fun t => ⟨some t, pts⟩
+
+def handle (line : String) : String :=
+  match fields line with
+  | ["cls", t] => match parseType t with | some t => clsLine t false | none => "bad-op"
+  | ["clsret", t] => match parseType t with | some t => clsLine t true | none => "bad-op"
+  | ["spec", t] => match parseType t with | some t => specLine t | none => "bad-op"
+  | "judge" :: t :: k =>
+    match parseType t, parseKind k with
+    | some t, some k => if decide (Sound k t.view) then "sound" else "unsound"
+    | _, _ => "bad-op"
+  | "sig" :: ws =>
+    match parseSig ws with
+    | some s => sigLine s.ret s.params
+    | none => "bad-op"
+  | "place" :: ws =>
+    match parseSig ws with
+    | some s =>
+      let i := implPlace s
+      let p := place s
+      s!"impl={placementName i} spec={placementName p} eq={b01 (decide (i = p))} fits={b01 (fitsInRegs s)} nosplit={b01 (noSplit s)} natural={b01 (decide ((∀ t ∈ s.ret, t.view.natural) ∧ ∀ t ∈ s.params, t.view.natural))}"
+    | none => "bad-op"
+  | ["cstr", d, n, h] =>
+    match unhex h with
+    | some s =>
+      let m : Mem := List.replicate n.toNat! 0xAA
+      match cstrCopy m d.toNat! s with
+      | none => "oob"
+      | some m' => match stringFromCStr m' d.toNat! with
+        | some r => "ok " ++ hex r
+        | none => "oob"
+    | none => "bad-op"
+  | _ => "bad-op"
+
+def main : IO Unit := lineLoop handle
